@@ -488,6 +488,13 @@ def run(ctx) -> None:
     ctx.rule("C10.R6", "types and values inside definitions decode to what was encoded: forward CODEC of hugr.tys / hugr.val (shared with C02.R1)", floor=20)
     from .c02 import r1_forward_codec
     r1_forward_codec(ctx, nf, rule="C10.R6", modules=("hugr.tys", "hugr.val"))
+    ctx.rule("C10.R7", "the serial models hold what they are given: no model configuration or hook that rewrites values (descriptions, names) on the way in or out (shared with C05.R7 / C17.R3)", floor=60)
+    from .c17 import r3_no_hidden_acceptance_logic
+    from ..schema import SchemaDeriver
+    d3 = SchemaDeriver(ctx.program, None)
+    d3.canon = ctx.canon
+    with ctx.as_rule(C17_R3="C10.R7"):
+        r3_no_hidden_acceptance_logic(ctx, d3, with_required=False)
     from .. import lints
     lints.arm(ctx)
 
